@@ -188,3 +188,9 @@ class HistParametricModel(ParametricModelBaseMixin, HistContainer):
 
     def fill(self, entries):
         raise TypeError("Parametric model of histogram cannot be filled!")
+
+    def rebin(self, new_bin_edges):
+        super(HistParametricModel, self).rebin(new_bin_edges)
+        # the bin contents must be re-evaluated for the new bin edges
+        self._pm_calculation_stale = True
+        self._clear_total_error_cache()
